@@ -7,7 +7,8 @@
      gcount g recs               total count recorded for n-gram g in a list of records;  occ g gs = occurrences of g in gs
      clean ss                    no sentence contains the ids of <unk> or <s> (CorpusCount skips special words) *)
 From Coq Require Import List NArith.
-From Kenlm Require Import C07.CountModel C07.CountProofs C07.CanonicalProofs.
+From Kenlm Require Import C07.CountModel C07.CountProofs C07.CanonicalProofs C07.CollapseStreamModel C07.CollapseStreamProofs.
+From Coq Require Import Sorting.Permutation.
 From Kenlm Require Import C16.SortModel C16.MainProofs.
 Import ListNotations.
 Local Open Scope N_scope.
@@ -53,3 +54,16 @@ Theorem C07_sort_canonical :
   sort_dispatch (rec_lt (suffix_lt order)) (combine_counts order) es m2 b2 (cfg_total c2) lazy2 runs2 = (SortOk out2 tr2, r2) ->
   out1 = out2.
 Proof. exact sort_canonical. Qed.
+
+(* CollapseStream (adjust_counts.cc), the stage that reads the sorted highest-order counts block by block, deletes the
+   entries with <s> in position 1 by moving entries up from the back of the same block, and marks entries for pruning
+   (count <= threshold, or a pruned word): for EVERY split of the stream into chain blocks
+     - what goes down the chain is, as a multiset, exactly the entries without <s> in position 1, each marked according to
+       its own count and words (in particular an entry that was moved before the stream visited it is marked too), and
+     - what AdjustCounts reads is every entry, in order, marked the same way.
+   Neither right-hand side mentions the blocks. *)
+Theorem C07_collapse_block_irrelevant : forall threshold prune_word blocks,
+  Permutation (concat (map (collapse_block threshold prune_word) blocks))
+              (map (mark threshold prune_word) (filter keep (concat blocks))) /\
+  concat (map (collapse_seen threshold prune_word) blocks) = map (mark threshold prune_word) (concat blocks).
+Proof. intros. split; [apply collapse_blocks_perm|apply collapse_seen_concat]. Qed.
